@@ -5,6 +5,7 @@ From Coq Require Import ExtrOcamlBasic ExtrOcamlString.
 From HV Require Import Model.SetOps Gen.GenInvFilters Model.FrontierModel.
 From HV Require Import Spec.StateIdSpec Model.StateIdModel Gen.GenStorageDigest Gen.GenStateId.
 From HV Require Import Model.PathSliceModel Gen.GenPathSlice.
+From HV Require Import Spec.ProbeSpec Gen.GenProbes Model.ProbeModel.
 Import ListNotations.
 Open Scope Z_scope.
 
@@ -169,12 +170,34 @@ Definition c15_slice (a : list Z) : list Z :=
   let '(sv, l) := poplist l in
   map Z.of_nat (p_slice (p_build vs) sv).
 
+(* probes: [n; (kind; a; b; c)*]  kind 0: EPath a (result b: 0 sat / 1 unsat / 2 unknown / 3 err) (model c)
+                                   kind 1: EDone a
+   -> len; submitted flags...; len; probes_reported...; len; counterexamples... *)
+Fixpoint parse_pevents (n : nat) (l : list Z) : list pevent :=
+  match n with
+  | O => []
+  | S k => let '(kind, l) := pop1 l in
+           let '(a, l) := pop1 l in
+           let '(b, l) := pop1 l in
+           let '(c, l) := pop1 l in
+           (if kind =? 0
+            then EPath a (if b =? 0 then RSat else if b =? 1 then RUnsat else if b =? 2 then RUnknown else RErr) (negb (c =? 0))
+            else EDone (Z.to_nat a)) :: parse_pevents k l
+  end.
+Definition c15_probes (a : list Z) : list Z :=
+  let '(n, l) := pop1 a in
+  let s := prun (parse_pevents (Z.to_nat n) l) in
+  (Z.of_nat (length (ps_flags s)) :: map b2z (ps_flags s)) ++
+  (Z.of_nat (length (ps_reported s)) :: ps_reported s) ++
+  (Z.of_nat (length (ps_cex s)) :: ps_cex s).
+
 Definition table : list (string * (list Z -> list Z)) :=
   [ ("c15_resolve_contracts"%string, c15_resolve_contracts);
     ("c15_sender_allowed"%string, c15_sender_allowed);
     ("c15_resolve_selectors"%string, c15_resolve_selectors);
     ("c15_frontier"%string, c15_frontier);
     ("c15_state_classes"%string, c15_state_classes);
-    ("c15_slice"%string, c15_slice) ].
+    ("c15_slice"%string, c15_slice);
+    ("c15_probes"%string, c15_probes) ].
 
 Extraction "_build/C15/entries.ml" table.
